@@ -177,7 +177,18 @@ func (wd *world) endSingleton(name string, quiet bool) {
 	if quiet {
 		q = 1
 	}
-	wd.w.Emit(map[string]any{"ev": "End", "q": q, "own": own, "live": singNodes(name), "id": name})
+	// the End line and the actor's own start / stop reports are ordered by singMu: a spawn single-flight that outlived its
+	// callers may still start an instance concurrently, and "live" must be what the reports BEFORE this line say
+	singMu.Lock()
+	live := []string{}
+	for _, v := range singLive {
+		if v[1] == name {
+			live = append(live, v[0])
+		}
+	}
+	sort.Strings(live)
+	wd.w.Emit(map[string]any{"ev": "End", "q": q, "own": own, "live": live, "id": name})
+	singMu.Unlock()
 	for _, n := range wd.nodes {
 		_ = n.sys.Kill(ctx, name)
 	}
